@@ -92,6 +92,7 @@ type State struct {
 	retSet    bool
 	opaqueSeq int
 	reachSeen map[string]bool
+	pinned    map[int]uint64
 }
 
 func (s *State) clone(newID int) *State {
@@ -134,6 +135,12 @@ func (s *State) clone(newID int) *State {
 	c.stubs = make(map[string]Value, len(s.stubs))
 	for k, v := range s.stubs {
 		c.stubs[k] = v
+	}
+	if s.pinned != nil {
+		c.pinned = make(map[int]uint64, len(s.pinned))
+		for k, v := range s.pinned {
+			c.pinned[k] = v
+		}
 	}
 	c.reachSeen = make(map[string]bool, len(s.reachSeen))
 	for k, v := range s.reachSeen {
